@@ -1,4 +1,5 @@
 import Refine.Lemmas.NodeIds
+import Refine.Lemmas.CellStore
 
 /-!
   C14 part B (and the id-bookkeeping clause of C13): the vertex-id state machine of `ref_node.c` and the
@@ -233,5 +234,172 @@ example : (exState.nextGlobal).2.1 = 1 ∧ (exState.nextGlobal.2.2.add 1).2.1 = 
 
 example : NodeInv exState ∧ PoolInv exState :=
   ⟨node_inv_all_sequences [.add 0, .add 1, .add 2, .initNGlobal 3, .remove 1], exState_pool⟩
+
+
+/-! ## CellStore -/
+section Cell
+open Refine.Model.CellStore
+open Refine.Model.CellStore.CellStore
+
+/-- `CellInv` (rows of length `size_per`; free list through `c2n[1]` acyclic and exactly the invalid rows;
+    `n` = number of valid rows; nodes of valid cells non-negative; adjacency exact) holds after
+    `ref_cell_create` for each of the 16 cell types of the generated tables -/
+theorem cell_create_inv : ∀ t ∈ Refine.Gen.CellTables.all, CellInv (CellStore.create t) := by
+  intro t ht
+  have hall : Refine.Gen.CellTables.all.all (fun t => decide (2 ≤ t.nodePer)) = true := by decide
+  exact create_CellInv t (by simpa using List.all_eq_true.1 hall t ht)
+
+/-- `ref_cell_add` of `size_per` entries with non-negative nodes preserves `CellInv`; it succeeds unless the
+    store sits at the `REF_INT_MAX/4` growth limit, where the C returns `REF_FAILURE` and changes nothing -/
+theorem cell_add_preserves {s : CellStore} (h : CellInv s) {nodes : List Int}
+    (hlen : nodes.length = s.sizePer) (hnn : ∀ v ∈ nodes.take s.nodePer, 0 ≤ v) :
+    CellInv (s.add nodes).2.2 ∧ (s.max < MAX_LIMIT → (s.add nodes).1 = .ok) := add_CellInv h hlen hnn
+
+/-- `ref_cell_remove` of a valid cell succeeds and preserves `CellInv`; an invalid cell is rejected with
+    `REF_INVALID` and the state is untouched -/
+theorem cell_remove_preserves {s : CellStore} (h : CellInv s) (cell : Int) :
+    (s.validCell cell = true → (s.remove cell).1 = .ok ∧ CellInv (s.remove cell).2) ∧
+    (s.validCell cell = false → s.remove cell = (.invalid, s)) :=
+  ⟨fun hv => remove_CellInv h hv, fun hv => CellStore.remove_invalid hv⟩
+
+/-- `ref_cell_replace_whole`: succeeds on a valid cell, preserves `CellInv`, the row becomes `nodes`, every
+    other row and the set of valid cells are unchanged -/
+theorem cell_replace_whole_preserves {s : CellStore} (h : CellInv s) {cell : Int}
+    (hv : s.validCell cell = true) {nodes : List Int} (hlen : nodes.length = s.sizePer)
+    (hnn : ∀ v ∈ nodes.take s.nodePer, 0 ≤ v) :
+    ∃ r, s.replaceWhole cell nodes = (.ok, r) ∧ CellInv r ∧ (∀ c, r.validCell c = s.validCell c) ∧
+      (∀ c, c ≠ cell.toNat → r.row c = s.row c) ∧ r.row cell.toNat = nodes :=
+  replaceWhole_spec h hv hlen hnn
+
+/-- **`ref_cell_replace_node` terminates and equals substitution.**  The C loop
+    `while (ref_adj_valid(first[old]))` has no bound; the model's loop carries the fuel
+    `length (cells around old)` and returns `none` if it runs out.  Under `CellInv` it never does: every
+    iteration unlinks at least one item of `old`'s list.  The result is `old ↦ new` substituted in the node
+    entries of every valid cell (ids and free rows untouched), `CellInv` preserved. -/
+theorem cell_replace_node_terminates_and_substitutes {s : CellStore} (h : CellInv s) (old : Int) {new : Int}
+    (hnew : 0 ≤ new) :
+    ∃ r, s.replaceNode old new = some (.ok, r) ∧ CellInv r ∧ (∀ c, r.validCell c = s.validCell c) ∧
+      r.n = s.n ∧
+      ∀ c : Nat, r.row c =
+        if s.validCell (c : Int) = true then substRow s.nodePer old new (s.row c) else s.row c := by
+  obtain ⟨r, h1, h2, h3, h4⟩ := replaceNode_spec h old hnew
+  exact ⟨r, h1, h2, h3.valid, h3.n, h4⟩
+
+/-- **derived adjacency exact**: the cells reported around a vertex (`each_ref_cell_having_node`) are exactly
+    the valid cells containing it, as a multiset (one report per occurrence) -/
+theorem cell_adjacency_exact {s : CellStore} (h : CellInv s) (v c : Int) :
+    (s.adj.first v).count c = (if s.validCell c = true then (s.cellNodes c).count v else 0) ∧
+    (c ∈ s.adj.first v ↔ s.validCell c = true ∧ v ∈ s.cellNodes c) :=
+  ⟨h.adj v c, mem_first_iff h⟩
+
+/-- **`ref_cell_with`** finds a valid cell with the same vertex set iff one exists (and never reports
+    `REF_INVALID`) -/
+theorem cell_with_finds_iff_exists {s : CellStore} (h : CellInv s) {nodes : List Int}
+    (hlen : nodes.length = s.nodePer) :
+    (∃ c, s.withNodes nodes = (.ok, c) ∧ s.validCell c = true ∧ ∀ x, x ∈ s.cellNodes c ↔ x ∈ nodes) ∨
+    (s.withNodes nodes = (.not_found, -1) ∧
+      ¬ ∃ c, s.validCell c = true ∧ ∀ x, x ∈ s.cellNodes c ↔ x ∈ nodes) := with_spec h hlen
+
+/-- counts exact: `n` is the number of valid rows -/
+theorem cell_count_exact {s : CellStore} (h : CellInv s) :
+    s.n = ((s.c2n.countP liveRow : Nat) : Int) := h.count
+
+/-- frame: `add` returns an id that was not valid, stores exactly `nodes` there and leaves every valid cell
+    alone; `remove` leaves every other valid cell alone -/
+theorem cell_frame {s : CellStore} (h : CellInv s) :
+    (∀ nodes : List Int, nodes.length = s.sizePer → (∀ v ∈ nodes.take s.nodePer, 0 ≤ v) →
+      (s.add nodes).1 = .ok →
+      s.validCell (s.add nodes).2.1 = false ∧
+      (s.add nodes).2.2.cellNodes (s.add nodes).2.1 = nodes.take s.nodePer ∧
+      ∀ c, s.validCell c = true →
+        (s.add nodes).2.2.validCell c = true ∧ (s.add nodes).2.2.cellNodes c = s.cellNodes c) ∧
+    (∀ cell, s.validCell cell = true → ∀ c, c ≠ cell → s.validCell c = true →
+      (s.remove cell).2.validCell c = true ∧ (s.remove cell).2.cellNodes c = s.cellNodes c) := by
+  constructor
+  · intro nodes hlen hnn hok
+    obtain ⟨h1, _, h3, h4⟩ := add_frame h hlen hnn hok
+    exact ⟨h1, h3, h4⟩
+  · intro cell hv c hc hvc
+    exact (remove_frame h hv).2.2 c hc hvc
+
+/-- slot reuse: `remove` then `add` returns the freed cell id (and, by `cell_frame`, disturbs no other cell) -/
+theorem cell_slot_reuse {s : CellStore} (h : CellInv s) {cell : Int} (hv : s.validCell cell = true)
+    {nodes : List Int} (hlen : nodes.length = s.sizePer) (hnn : ∀ v ∈ nodes.take s.nodePer, 0 ≤ v) :
+    ((s.remove cell).2.add nodes).1 = .ok ∧ ((s.remove cell).2.add nodes).2.1 = cell :=
+  remove_add_reuses h hv hlen hnn
+
+/-- operations of the cell store with the argument guards under which the C is defined
+    (`size_per` entries, non-negative node ids) -/
+inductive COp
+  | add (nodes : List Int) | remove (cell : Int)
+  | replaceWhole (cell : Int) (nodes : List Int) | replaceNode (old new : Int)
+
+def goodNodes (s : CellStore) (nodes : List Int) : Bool :=
+  decide (nodes.length = s.sizePer) && (nodes.take s.nodePer).all fun v => decide (0 ≤ v)
+
+def cstep (s : CellStore) : COp → CellStore
+  | .add nodes => if goodNodes s nodes then (s.add nodes).2.2 else s
+  | .remove cell => (s.remove cell).2
+  | .replaceWhole cell nodes =>
+    if goodNodes s nodes && s.validCell cell then (s.replaceWhole cell nodes).2 else s
+  | .replaceNode old new =>
+    if 0 ≤ new then (match s.replaceNode old new with | some r => r.2 | none => s) else s
+
+theorem goodNodes_iff {s : CellStore} {nodes : List Int} :
+    goodNodes s nodes = true ↔ nodes.length = s.sizePer ∧ ∀ v ∈ nodes.take s.nodePer, 0 ≤ v := by
+  simp [goodNodes]
+
+theorem cell_step_preserves {s : CellStore} (h : CellInv s) (o : COp) : CellInv (cstep s o) := by
+  cases o with
+  | add nodes =>
+    simp only [cstep]; split
+    · rename_i hg; obtain ⟨h1, h2⟩ := goodNodes_iff.1 hg; exact (add_CellInv h h1 h2).1
+    · exact h
+  | remove cell =>
+    simp only [cstep]
+    cases hv : s.validCell cell with
+    | true => exact (remove_CellInv h hv).2
+    | false => rw [CellStore.remove_invalid hv]; exact h
+  | replaceWhole cell nodes =>
+    simp only [cstep]; split
+    · rename_i hg
+      simp only [Bool.and_eq_true] at hg
+      obtain ⟨h1, h2⟩ := goodNodes_iff.1 hg.1
+      obtain ⟨r, hr, hinv, _⟩ := replaceWhole_spec h hg.2 h1 h2
+      rw [hr]; exact hinv
+    · exact h
+  | replaceNode old new =>
+    simp only [cstep]; split
+    · rename_i hnew
+      obtain ⟨r, hr, hinv, _⟩ := replaceNode_spec h old hnew
+      rw [hr]; exact hinv
+    · exact h
+
+/-- **CellInv for every operation sequence** on every cell type -/
+theorem cell_inv_all_sequences (t : Refine.Gen.CellTables.CellType) (ht : t ∈ Refine.Gen.CellTables.all)
+    (ops : List COp) : CellInv (ops.foldl cstep (CellStore.create t)) := by
+  suffices ∀ s, CellInv s → CellInv (ops.foldl cstep s) from this _ (cell_create_inv t ht)
+  induction ops with
+  | nil => intro s h; exact h
+  | cons o rest ih => intro s h; exact ih _ (cell_step_preserves h o)
+
+/-! ### non-vacuity -/
+
+/-- two triangles sharing the edge 2-3, then vertex 3 replaced by 7 -/
+def exCells : CellStore :=
+  [COp.add [1, 2, 3, 10], COp.add [3, 2, 4, 11], COp.replaceNode 3 7].foldl cstep
+    (CellStore.create Refine.Gen.CellTables.tri)
+
+example : exCells.n = 2 ∧ exCells.row 0 = [1, 2, 7, 10] ∧ exCells.row 1 = [7, 2, 4, 11] ∧
+    exCells.adj.first 7 = [0, 1] ∧ exCells.adj.first 3 = [] ∧ exCells.adj.first 2 = [1, 0] ∧
+    exCells.withNodes [2, 4, 7] = (.ok, 1) ∧ exCells.withNodes [1, 2, 3] = (.not_found, -1) := by decide
+
+example : CellInv exCells :=
+  cell_inv_all_sequences _ (by decide) [COp.add [1, 2, 3, 10], COp.add [3, 2, 4, 11], COp.replaceNode 3 7]
+
+/-- remove then add re-uses slot 0 on the example -/
+example : ((exCells.remove 0).2.add [5, 6, 7, 12]).2.1 = 0 := by decide
+
+end Cell
 
 end Refine.Props.C14NodeCell
